@@ -311,8 +311,11 @@ class HTMLSerializer(object):
                 if (type == "StartTag" and name in ("pre", "textarea", "listing") and
                         token.get("namespace") in (None, namespaces["html"])):
                     after_newline_eater = True
-                if (name in rcdataElements and not self.escape_rcdata and
+                if (name in rcdataElements and name != "noscript" and
+                        not self.escape_rcdata and
                         token.get("namespace") in (None, namespaces["html"])):
+                    # (noscript content is markup to a parser without
+                    # scripting, so it must be escaped like any other text)
                     # (an SVG or MathML element of that name is not raw text)
                     in_cdata = True
                 elif in_cdata:
